@@ -129,3 +129,63 @@ func EncodeOrdered(s *Struct, v *Val, order []int) []byte {
 
 // EncodeValue encodes a bare value of type t (no field header).
 func EncodeValue(t *Type, v *Val) []byte { return encVal(nil, t, v) }
+
+// EncodeWith is Encode with a caller-chosen field order per struct type:
+// order(st) returns a permutation of indices into st.Fields (nil = ascending).
+func EncodeWith(s *Struct, v *Val, order func(st *Struct) []int) []byte {
+	e := &orderedEnc{order: order}
+	return e.structBody(nil, s, v)
+}
+
+type orderedEnc struct {
+	order func(st *Struct) []int
+}
+
+func (e *orderedEnc) structBody(b []byte, s *Struct, v *Val) []byte {
+	if v == nil {
+		return append(b, WStop)
+	}
+	ord := e.order(s)
+	if ord == nil {
+		ord = make([]int, len(s.Fields))
+		for i := range ord {
+			ord[i] = i
+		}
+	}
+	for _, i := range ord {
+		f := s.Fields[i]
+		fv := v.F[i]
+		if Omitted(s, f, fv) {
+			continue
+		}
+		b = append(b, f.Type.Kind.Wire(), byte(f.ID>>8), byte(f.ID))
+		b = e.val(b, f.Type, fv)
+	}
+	if s.Unknown {
+		b = append(b, v.Unk...)
+	}
+	return append(b, WStop)
+}
+
+func (e *orderedEnc) val(b []byte, t *Type, v *Val) []byte {
+	switch t.Kind {
+	case KStruct:
+		return e.structBody(b, t.St, v)
+	case KList, KSet:
+		b = append(b, t.Elem.Kind.Wire())
+		b = binary.BigEndian.AppendUint32(b, uint32(len(v.L)))
+		for _, x := range v.L {
+			b = e.val(b, t.Elem, x)
+		}
+		return b
+	case KMap:
+		b = append(b, t.Key.Kind.Wire(), t.Elem.Kind.Wire())
+		b = binary.BigEndian.AppendUint32(b, uint32(len(v.M)))
+		for _, x := range v.M {
+			b = e.val(b, t.Key, x[0])
+			b = e.val(b, t.Elem, x[1])
+		}
+		return b
+	}
+	return encVal(b, t, v)
+}
